@@ -37,5 +37,18 @@ SPEC = {
                  'asserts': 'ZERO iff a file is missing; Err iff present but unreadable; else exactly notAfter - renew_delay'},
             ],
         },
+        {
+            'name': 'files', 'shims': ['nix'],
+            'edits': STORAGE_EDITS + [
+                {'file': ST, 'fn': 'get_file_path', 'body': '\tlet k = file_type as usize;\n\tlet _ = fm;\n\tif crate::verif_env::env().fs_path_error[k] { return Err("path".into()); }\n\tOk(PathBuf::from(match k { 0 => "a", 1 => "k", _ => "c" }))'},
+                {'file': ST, 'replace': 'path.is_file()', 'with': 'crate::verif_env::env().fs_type_exists[match path.to_str() { Some("a") => 0, Some("k") => 1, _ => 2 }]'},
+            ],
+            'assumptions': ['storage::get_file_path cut: the path of a file type is a one-letter name (or an error, symbolic); Path::is_file in check_files replaced by the existence flag of that file type'],
+            'harness_files': {ST: 'harness/storage.rs'},
+            'harnesses': [
+                {'name': 'c06_files_exist_all_not_any', 'file': ST, 'timeout': 1800, 'unwindset': {'check_files': 3, 'memcmp': 2, 'drop_glue': 3, 'to_vec|from_elem': 3, 'try_from_fn|array::drain|from_fn': 4},
+                 'bounds': 'existence and path-construction outcome of each of the three files symbolic (all 64 patterns)', 'asserts': 'certificate_files_exists == key file AND certificate file exist; account_files_exists == account file exists'},
+            ],
+        },
     ],
 }
